@@ -167,6 +167,17 @@ pub fn run_world(args: &Args) -> (u64, u64) {
             // lower-case spelling of the same user is the same normalised name
             c.world_server(exp, &user.to_ascii_lowercase(), key, proof, cs, true, Some(*sseed));
         }
+        // names that together contain EVERY printable ASCII character, honest world login in each expansion
+        {
+            c.reset("world-name-characters");
+            for (k, name) in ["!\"#$%&'()*+,-./0", "123456789:;<=>?@A", "BCDEFGHIJKLMNOPQ", "RSTUVWXYZ[\\]^_`a", "bcdefghijklmnopq", "rstuvwxyz{|}~ A", "A|B", "a{b}c~d`e"].iter().enumerate() {
+                let name = &name[..name.len().min(16)];
+                let key = rnd40(&mut rng);
+                if let Some((_cl, proof, cs)) = c.world_client(exp, name, key, 77 + k as u32, true, Some(5 + k as u32)) {
+                    c.world_server(exp, name, key, proof, cs, true, Some(77 + k as u32));
+                }
+            }
+        }
         // proofs with a zero first / last byte (found by trying server seeds through the public API), seeds with zero bytes
         for target in [0usize, 19] {
             c.reset("world-zero-proof-byte");
@@ -618,6 +629,29 @@ pub fn run_stream(args: &Args) -> (u64, u64) {
             }
         }
     }
+    // consecutive constructions for keys that differ in ONE byte, at every index 0..39 (both orders), in all odd-indexed or
+    // all even-indexed bytes, in one half only
+    {
+        c.reset("stream-keybytes");
+        let k0 = rnd40(&mut rng);
+        let mut variants: Vec<[u8; 40]> = vec![];
+        for i in 0..40usize { let mut k = k0; k[i] ^= 0x80 >> (i % 8); variants.push(k); }
+        let mut k = k0; for i in (1..40).step_by(2) { k[i] = !k[i]; } variants.push(k);
+        let mut k = k0; for i in (0..40).step_by(2) { k[i] = !k[i]; } variants.push(k);
+        let mut k = k0; for x in k.iter_mut().skip(20) { *x ^= 0x11; } variants.push(k);
+        let mut k = k0; for x in k.iter_mut().take(20) { *x ^= 0x11; } variants.push(k);
+        for (vi, kv) in variants.iter().enumerate() {
+            let order = if vi % 2 == 0 { [k0, *kv] } else { [*kv, k0] };
+            for key in order {
+                let Some((mut cl, mut sv)) = pair(&mut c, exp, "KEYBYTE", key, None, 9) else { continue };
+                let w = [0xA1u8, 0xB2, 0xC3, 0xD4, 0xE5];
+                if let Some(o) = c.call(&mut cl, "enc", &w, "half") { c.call(&mut sv, "dec", &o, "half"); }
+                if let Some(o) = c.call(&mut sv, "enc", &w, "half") { c.call(&mut cl, "dec", &o, "half"); }
+                c.drop_conn(&cl);
+                c.drop_conn(&sv);
+            }
+        }
+    }
     // many keys, short traffic: key derivation of both halves on both sides
     let nkeys = args.n.unwrap_or(if thorough { 3000 } else { 150 });
     let mut base = rnd40(&mut rng);
@@ -786,6 +820,9 @@ fn wrath_deliver(c: &mut C, rng: &mut StdRng, cl: &mut Conn, bytes: &[u8], path:
                     if (path % 5 == 2 || turn % 4 == 1) && cl.is_whole() {
                         c.split(cl);
                         c.wrath_complete(cl, bytes[4], "half");
+                    } else if turn % 3 == 0 {
+                        // the second step through the OTHER access path (combined object vs its decrypter())
+                        c.wrath_complete(cl, bytes[4], if via == "combined" { "half" } else { "combined" });
                     } else {
                         c.wrath_complete(cl, bytes[4], via);
                     }
@@ -1657,6 +1694,96 @@ pub fn run_halves(args: &Args) -> (u64, u64) {
         c.write_hdr(&mut b2, "server", 0x20 + i as u32, 0x1EE, &script, "combined");
         c.call(&mut b2, "dec", &w[..3], "combined");
         c.call(&mut b2, "enc", &w, "combined");
+    }
+    // clone_from from an object that is exactly one (or two) key periods ahead: same key, same position, ANOTHER carried byte
+    c.reset("clone-from-same-position");
+    for (i, exp) in EXPS.iter().cycle().take(if args.tier == "thorough" { 18 } else { 6 }).enumerate() {
+        let Some((mut a, _)) = pair(&mut c, exp, "SAMEPOS", key, None, 1) else { continue };
+        let mut w0 = vec![0u8; 3 + i];
+        rng.fill_bytes(&mut w0);
+        c.call(&mut a, "enc", &w0, "combined");
+        c.call(&mut a, "dec", &w0, "combined");
+        if i % 2 == 1 { c.split(&mut a); }
+        let mut snap = c.clone_conn(&a);
+        let period = if *exp == "vanilla" { 40 } else if *exp == "tbc" { 20 } else { 256 };
+        let mut w = vec![0u8; period * (1 + i % 2)];
+        rng.fill_bytes(&mut w);
+        c.call(&mut a, "enc", &w, "half");
+        c.call(&mut a, "dec", &w, "half");
+        c.clone_from_conn(&mut snap, &a);
+        c.call(&mut snap, "dec", &w0, "half");
+        c.call(&mut snap, "enc", &w0, "half");
+        c.call(&mut a, "dec", &w0, "half");
+    }
+    // ONE half of a combined object replaced through its accessor (`*obj.encrypter() = other`, or the decrypter) by a half
+    // with ANOTHER key: each direction then follows its own half; the typed helpers of the untouched direction included
+    c.reset("half-replaced-through-accessor");
+    for (i, exp) in EXPS.iter().cycle().take(if args.tier == "thorough" { 18 } else { 6 }).enumerate() {
+        let mut k2 = key;
+        k2[(i * 5) % 40] ^= 0x42;
+        let Some((mut a, mut sva)) = pair(&mut c, exp, "REPLACED", key, None, 1) else { continue };
+        let Some((mut o, mut svo)) = pair(&mut c, exp, "REPLACED", k2, None, 1) else { continue };
+        let replace_enc = i % 2 == 0;
+        let done = match (&mut a.st, &mut o.st) {
+            (State::Whole(Cr::V(x)), State::Whole(Cr::V(y))) => { if replace_enc { *x.encrypter() = y.encrypter().clone(); } else { *x.decrypter() = y.decrypter().clone(); } true }
+            (State::Whole(Cr::T(x)), State::Whole(Cr::T(y))) => { if replace_enc { *x.encrypter() = y.encrypter().clone(); } else { *x.decrypter() = y.decrypter().clone(); } true }
+            (State::Whole(Cr::WC(x)), State::Whole(Cr::WC(y))) => { if replace_enc { *x.encrypter() = y.encrypter().clone(); } else { *x.decrypter() = y.decrypter().clone(); } true }
+            _ => false,
+        };
+        if !done { continue; }
+        if replace_enc {
+            c.tr.ev(json!({"ev": "DropHalf", "h": a.he}));
+            a.he = c.hid();
+            c.tr.ev(json!({"ev": "CloneHalf", "h": o.he, "h2": a.he}));
+        } else {
+            c.tr.ev(json!({"ev": "DropHalf", "h": a.hd}));
+            a.hd = c.hid();
+            c.tr.ev(json!({"ev": "CloneHalf", "h": o.hd, "h2": a.hd}));
+        }
+        // the object now sends with one key and receives with the other: each server understands its direction
+        let (send_srv, recv_srv) = if replace_enc { (&mut svo, &mut sva) } else { (&mut sva, &mut svo) };
+        if let Some(h) = c.enc_client_hdr(&mut a, 0x0123, 0x1ED, "combined") {
+            c.sent = Some((0x0123, 0x1ED));
+            c.read_hdr(send_srv, "client", &[Step::Data(h)], "combined");
+        }
+        if let Some(h) = c.enc_server_hdr(recv_srv, 0x0456, 0x1EE, "combined") {
+            c.sent = Some((0x0456, 0x1EE));
+            if *exp == "wrath" {
+                c.read_hdr(&mut a, "server", &[Step::Data(h)], "combined");
+            } else {
+                let mut a4 = [0u8; 4];
+                a4.copy_from_slice(&h);
+                c.dec_server_hdr(&mut a, a4, "combined");
+            }
+        }
+        c.sent = None;
+        let w = [9u8, 8, 7, 6, 5, 4, 3];
+        c.call(&mut a, "enc", &w, "combined");
+        c.call(&mut a, "dec", &w, "combined");
+    }
+    // the same on the SERVER side objects of vanilla / tbc (one type serves both roles) with the client-header helper
+    for (i, exp) in ["vanilla", "tbc"].iter().enumerate() {
+        let mut k2 = key;
+        k2[7 + i] ^= 0x24;
+        let Some((mut cla, mut a)) = pair(&mut c, exp, "REPLACED", key, None, 1) else { continue };
+        let Some((_clo, mut o)) = pair(&mut c, exp, "REPLACED", k2, None, 1) else { continue };
+        let done = match (&mut a.st, &mut o.st) {
+            (State::Whole(Cr::V(x)), State::Whole(Cr::V(y))) => { *x.encrypter() = y.encrypter().clone(); true }
+            (State::Whole(Cr::T(x)), State::Whole(Cr::T(y))) => { *x.encrypter() = y.encrypter().clone(); true }
+            _ => false,
+        };
+        if !done { continue; }
+        c.tr.ev(json!({"ev": "DropHalf", "h": a.he}));
+        a.he = c.hid();
+        c.tr.ev(json!({"ev": "CloneHalf", "h": o.he, "h2": a.he}));
+        // the receiving direction of `a` still uses the first key: its own client's header decodes
+        if let Some(h) = c.enc_client_hdr(&mut cla, 0x0123, 0x1ED, "combined") {
+            c.sent = Some((0x0123, 0x1ED));
+            let mut a6 = [0u8; 6];
+            a6.copy_from_slice(&h);
+            c.dec_client_hdr(&mut a, a6, "combined");
+            c.sent = None;
+        }
     }
     // clone_from between halves of DIFFERENT keys: the destination becomes the source (key included), for every expansion;
     // a vanilla destination can then be re-joined with the source's decrypter
